@@ -136,16 +136,8 @@ Qed.
 Lemma list_obs_eqb_refl l : list_eqb obs_eqb l l = true.
 Proof. induction l as [|o l IH]; [reflexivity|]. cbn. rewrite obs_eqb_refl, IH. reflexivity. Qed.
 
-(* the case whose observations are the model's *)
-Definition model_case (cfg : pcfg) (tbl : list (pread * rresult)) (items : list pcmd) : c36_case :=
-  let c0 := C36Case cfg tbl items [] in
-  C36Case cfg tbl items (map (fun p => (p, model_path c0 p)) path_ids).
-
 Definition uniform_case (cfg : pcfg) (tbl : list (pread * rresult)) (items : list pcmd) (S : list obs) : c36_case :=
   C36Case cfg tbl items (map (fun p => (p, S)) path_ids).
-
-Definition single_obs (cfg : pcfg) (tbl : list (pread * rresult)) (items : list pcmd) : list obs :=
-  map (fun cmd => obs_of (single_outcome (table_reader tbl) cfg cmd)) items.
 
 Lemma path_obs_uniform cfg tbl items S p : In p path_ids ->
   path_obs (uniform_case cfg tbl items S) p = Some S.
@@ -154,8 +146,15 @@ Proof.
   repeat (destruct H as [<-|H]; [reflexivity|]). destruct H.
 Qed.
 
-Definition no_divergence (cfg : pcfg) (tbl : list (pread * rresult)) (items : list pcmd) : Prop :=
+Definition no_divergence_P (cfg : pcfg) (tbl : list (pread * rresult)) (items : list pcmd) : Prop :=
   forall c, In c items -> sig_k1 c = false /\ k2_cond (facts_single (table_reader tbl) cfg c) = false.
+
+Lemma no_divergence_spec cfg tbl items : no_divergence cfg tbl items = true -> no_divergence_P cfg tbl items.
+Proof.
+  unfold no_divergence, no_divergence_P. intros H c Hc. rewrite forallb_forall in H.
+  specialize (H c Hc). apply andb_true_iff in H. destruct H as [H1 H2].
+  apply negb_true_iff in H1. apply negb_true_iff in H2. split; assumption.
+Qed.
 
 Lemma batch_each_agrees rd cfg : forall items,
   (forall c, In c items -> sig_k1 c = false /\ k2_cond (facts_single rd cfg c) = false) ->
@@ -168,7 +167,7 @@ Proof.
   destruct (H c (or_introl eq_refl)) as [H1 H2]. apply batch1_agrees_single; assumption.
 Qed.
 
-Lemma model_case_uniform cfg tbl items : no_divergence cfg tbl items ->
+Lemma model_case_uniform cfg tbl items : no_divergence_P cfg tbl items ->
   model_case cfg tbl items = uniform_case cfg tbl items (single_obs cfg tbl items).
 Proof.
   intro H. unfold model_case, uniform_case. f_equal.
@@ -231,10 +230,11 @@ Proof.
   rewrite Hl. cbn [negb].
   cbn [k_table k_items uniform_case].
   pose proof (item_codes_uniform cfg tbl items items [] eq_refl) as Hz. cbn [length] in Hz.
-  rewrite !(existsb_zeros _ _ _ Hz) by discriminate. reflexivity.
+  rewrite (existsb_zeros 1 _ ltac:(discriminate) Hz), (existsb_zeros 2 _ ltac:(discriminate) Hz),
+    (existsb_zeros 3 _ ltac:(discriminate) Hz). reflexivity.
 Qed.
 
-Lemma mismatch_uniform cfg tbl items : no_divergence cfg tbl items ->
+Lemma mismatch_uniform cfg tbl items : no_divergence_P cfg tbl items ->
   C36_mismatch (model_case cfg tbl items) = false.
 Proof.
   intro H. unfold C36_mismatch. apply negb_false_iff. apply forallb_forall. intros p Hp.
@@ -244,9 +244,13 @@ Proof.
   rewrite Hobs. apply list_obs_eqb_refl.
 Qed.
 
-Lemma model_satisfies_monitor cfg tbl items : no_divergence cfg tbl items ->
-  C36_monitor (model_case cfg tbl items) = 0.
-Proof. intro H. rewrite (model_case_uniform cfg tbl items H). apply monitor_uniform. Qed.
+Lemma model_satisfies_monitor cfg tbl items : no_divergence cfg tbl items = true ->
+  C36_monitor (model_case cfg tbl items) = 0 /\ C36_mismatch (model_case cfg tbl items) = false.
+Proof.
+  intro H. apply no_divergence_spec in H. split.
+  - rewrite (model_case_uniform cfg tbl items H). apply monitor_uniform.
+  - apply mismatch_uniform. exact H.
+Qed.
 
 (* the monitor flags the known divergences with their own codes, on the model's traces *)
 Lemma monitor_k1_example :
